@@ -51,6 +51,7 @@ def plan(tier, seed):
 
 
 def gen_case(rng, ctx):
+    gen.OUTLIER["n_only_up_to"] = 7      # the exact oracle limits the number of elements; rankings are not limited
     thorough = ctx.tier == "thorough"
     kind = rng.choice(["D8", "D8", "D8", "identical", "D3", "D4", "D9", "D2", "D11", "big"])
     nmax = 7 if thorough else 5
